@@ -126,3 +126,33 @@ package updates
 
 //@ func (*ModelUpdates).addMutateOperation
 //@ at call updates.mutate requires (arg1 == "/=" || arg1 == "%=") ==> NonZeroDivisor(arg2)
+
+// ---- difference.go / updates.go (C10) ---------------------------------------------
+
+// Atomic values: the merged difference is the later value; it is a change
+// exactly when it differs from the original (or, without an original, from the
+// earlier value).
+//@ func mergeAtomicDifference
+//@ ensures result0 == b
+
+// Dispatch: nil/nil is "no difference"; sets, maps and atoms go to their own
+// merge; difference(a,b) is mergeDifference without an original.
+//@ func difference
+//@ at call updates.mergeDifference requires arg0 == nil && arg1 == a && arg2 == b
+//@ func applyDifference
+//@ ensures d == nil ==> (result0 == v && !result1)
+//@ at call updates.difference requires arg0 == v && arg1 == d
+
+// updateOrModifyModel: every known column of the change row is written to the
+// (cloned) model exactly once per successful conversion - the received value
+// for an update, the applied difference for a modify - whether or not it
+// differs from the current value (computing the difference works in place on
+// the current value, so skipping the write would leave it scrambled).
+//@ func updateOrModifyModel
+//@ trace ovsdb.OvsToNative mapper.(*Info).SetField
+//@ at call mapper.(*Info).SetField requires arg1 == column
+//@ at call mapper.(*Info).SetField requires isModify ==> arg2 == differenceNative
+//@ at call mapper.(*Info).SetField requires !isModify ==> arg2 == updateNative
+//@ at call mapper.(*Info).SetField requires calls("mapper.(*Info).SetField") + 1 == calls("ovsdb.OvsToNative")
+//@ loop 1 invariant calls("mapper.(*Info).SetField") == calls("ovsdb.OvsToNative")
+//@ ensures_ok calls("mapper.(*Info).SetField") == calls("ovsdb.OvsToNative")
